@@ -301,6 +301,8 @@ def harnesses(tier):
         add("dirty[n=3,stale chunk file]", dict(n=3, stale_chunks=True, sym_chunk=True), rate=0.01)
         add("dirty[n=3,all leftovers]", dict(n=3, stale_chunks=True, stale_levels=True, stale_results=True), rate=0.01)
         add("dirty[n=2,prefix,all leftovers]", dict(n=2, stale_chunks=True, stale_levels=True, stale_results=True, prefix="a"), rate=0.01)
+        add("dirty[n=3,chunk 1..2,stale chunk file with index 3/9/10/11/20/100]", dict(n=3, stale_chunks=True, stale_indices=[3, 9, 10, 11, 20, 100], sym_chunk=True, max_chunk=2), rate=0.01)
+        add("dirty[2 collections with prefixes,n=2,stale result files of either prefix]", dict(n=2), sym_dirty2, "dirty2", 0.01)
         add("produced[first n=3 chunk 1, crash<=16, then n=2]", dict(n_first=3, n=2, first_chunk=1, max_crash=16), sym_produced, "produced", 0.02)
         add("produced[first n=2 chunk 2, crash<=12, then n=3]", dict(n_first=2, n=3, first_chunk=2, max_crash=12), sym_produced, "produced", 0.02)
     for nf, nr in ((1, 1), (1, 2)) if tier == "quick" else ((1, 2), (2, 2), (2, 3)):
